@@ -561,6 +561,19 @@ pub fn collect(c: Coll, mode: Mode) -> anyhow::Result<Vec<V>> {
     })
 }
 
+/// Number of rayon worker threads the next real runs use (0 = the process-global default pool). The
+/// parallel engine's `collect_par(None, …)` runs its `par_iter`s on whatever pool is current, so installing
+/// a private pool varies the REAL degree of parallelism and the schedule.
+pub static PAR_THREADS: std::sync::atomic::AtomicUsize = std::sync::atomic::AtomicUsize::new(0);
+
+fn pool_for(threads: usize) -> std::sync::Arc<rayon::ThreadPool> {
+    use std::collections::HashMap;
+    use std::sync::{Arc, Mutex, OnceLock};
+    static POOLS: OnceLock<Mutex<HashMap<usize, Arc<rayon::ThreadPool>>>> = OnceLock::new();
+    let mut m = POOLS.get_or_init(|| Mutex::new(HashMap::new())).lock().unwrap();
+    m.entry(threads).or_insert_with(|| Arc::new(rayon::ThreadPoolBuilder::new().num_threads(threads).build().expect("pool"))).clone()
+}
+
 /// run `f` on its own thread; a run that does not come back within `secs` is a HANG
 pub fn with_watchdog<T: Send + 'static>(secs: u64, f: impl FnOnce() -> T + Send + 'static) -> Option<Result<T, String>> {
     let (tx, rx) = mpsc::channel();
@@ -574,10 +587,11 @@ pub fn with_watchdog<T: Send + 'static>(secs: u64, f: impl FnOnce() -> T + Send 
 /// build the program on a fresh pipeline and collect it with the REAL engine
 pub fn run_real(prog: &Prog, mode: Mode) -> Outcome {
     let prog = prog.clone();
+    let threads = PAR_THREADS.load(std::sync::atomic::Ordering::SeqCst);
     match with_watchdog(10, move || {
         let p = Pipeline::default();
         let c = build(&p, &prog);
-        collect(c, mode)
+        if threads == 0 || mode == Mode::Seq { collect(c, mode) } else { pool_for(threads).install(|| collect(c, mode)) }
     }) {
         None => Outcome::Hang,
         Some(Err(msg)) => Outcome::Panic(msg),
